@@ -107,7 +107,7 @@ class LULinear(Linear):
         """
         lower, upper = self._create_lower_upper()
         identity = torch.eye(
-            self.features, self.features, device=self.lower_entries.device)
+            self.features, self.features, dtype=lower.dtype, device=lower.device)
         lower_inverse = torch.linalg.solve_triangular(
             lower, identity, upper=False, unitriangular=True
         )
